@@ -71,6 +71,7 @@ class Node:
         prot.transport = self.transport = core.SimTransport(sim, name, self.addr, actor=actor)
         au = sd.DatagramProtocolAdapter(prot, is_multicast=False)
         am = sd.DatagramProtocolAdapter(prot, is_multicast=True)
+        self.transport.proto = au
         sim.open_socket(name, self.addr, "u", au.datagram_received, self.ctx, self.tag, actor=actor)
         sim.open_socket(name, self.addr, "m", am.datagram_received, self.ctx, self.tag, group=GROUP, actor=actor)
         role = self.cfg["role"]
